@@ -38,9 +38,13 @@ pub enum K {
     IsClosed,
     PeerCert,
     Unbind,
+    /// search() / an adapted streaming search with a filter that does not parse: refused
+    /// locally, nothing is sent
+    SearchBadFilter,
+    StreamBadFilter,
 }
 
-pub const KINDS: [K; 18] = [
+pub const KINDS: [K; 20] = [
     K::Bind,
     K::SaslExternal,
     K::Search,
@@ -59,6 +63,8 @@ pub const KINDS: [K; 18] = [
     K::IsClosed,
     K::PeerCert,
     K::Unbind,
+    K::SearchBadFilter,
+    K::StreamBadFilter,
 ];
 
 /// server behaviour, encoded in the marker the request carries
@@ -101,15 +107,27 @@ fn has_request(k: K) -> bool {
 }
 
 fn carries_marker(k: K) -> bool {
-    !matches!(k, K::SaslExternal | K::Abandon | K::Unbind | K::LastId | K::IsClosed | K::PeerCert)
+    !matches!(k, K::SaslExternal | K::Abandon | K::Unbind | K::LastId | K::IsClosed | K::PeerCert | K::SearchBadFilter | K::StreamBadFilter)
+}
+
+fn filt(k: K) -> &'static str {
+    match k {
+        K::SearchBadFilter | K::StreamBadFilter => "(a=b",
+        _ => "(a=b)",
+    }
 }
 
 fn ctl(i: usize) -> RawControl {
     RawControl { ctype: "1.2.3".into(), crit: i % 2 == 0, val: Some(vec![i as u8]) }
 }
 
-fn opts() -> SearchOptions {
-    SearchOptions::new().deref(DerefAliases::Finding).sizelimit(5).timelimit(6).typesonly(true)
+fn opts(i: usize) -> SearchOptions {
+    if i % 2 == 1 {
+        // (limits a caller should not use, but may: both APIs must put the same thing on the wire)
+        SearchOptions::new().deref(DerefAliases::Always).sizelimit(-1).timelimit(-300).typesonly(false)
+    } else {
+        SearchOptions::new().deref(DerefAliases::Finding).sizelimit(5).timelimit(6).typesonly(true)
+    }
 }
 
 fn hs(v: &[&str]) -> HashSet<String> {
@@ -118,7 +136,7 @@ fn hs(v: &[&str]) -> HashSet<String> {
 
 fn adapters(k: K) -> Vec<Box<dyn Adapter<'static, String, Vec<String>>>> {
     match k {
-        K::StreamEntriesOnly => vec![Box::new(EntriesOnly::new())],
+        K::StreamEntriesOnly | K::StreamBadFilter => vec![Box::new(EntriesOnly::new())],
         K::StreamPaged => vec![Box::new(PagedResults::<String, Vec<String>>::new(2))],
         _ => vec![],
     }
@@ -141,16 +159,16 @@ async fn run_async(ldap: &mut ldap3::Ldap, seq: &[Step], out: &mut Vec<String>) 
             ldap.with_timeout(Duration::from_millis(10));
         }
         if s.mods & 4 != 0 {
-            ldap.with_search_options(opts());
+            ldap.with_search_options(opts(i));
         }
         let m = marker(i, s);
         let t0 = tokio::time::Instant::now();
         let r = match s.k {
             K::Bind => format!("{:?}", ldap.simple_bind(&m, "pw").await),
             K::SaslExternal => format!("{:?}", ldap.sasl_external_bind().await),
-            K::Search => format!("{:?}", ldap.search(&m, Scope::Subtree, "(a=b)", attrs()).await),
-            K::Stream | K::StreamEntriesOnly | K::StreamPaged | K::StreamEarlyResult => {
-                match ldap.streaming_search_with(adapters(s.k), &m, Scope::OneLevel, "(a=b)", attrs()).await {
+            K::Search | K::SearchBadFilter => format!("{:?}", ldap.search(&m, Scope::Subtree, filt(s.k), attrs()).await),
+            K::Stream | K::StreamEntriesOnly | K::StreamPaged | K::StreamEarlyResult | K::StreamBadFilter => {
+                match ldap.streaming_search_with(adapters(s.k), &m, Scope::OneLevel, filt(s.k), attrs()).await {
                     Err(e) => format!("start Err({:?})", e),
                     Ok(mut st) => {
                         let mut items = vec![];
@@ -210,19 +228,19 @@ fn run_sync(conn: &mut LdapConn, seq: &[Step], now: &dyn Fn() -> u128, out: &mut
             conn.with_timeout(Duration::from_millis(10));
         }
         if s.mods & 4 != 0 {
-            conn.with_search_options(opts());
+            conn.with_search_options(opts(i));
         }
         let m = marker(i, s);
         let t0 = now();
         let r = match s.k {
             K::Bind => format!("{:?}", conn.simple_bind(&m, "pw")),
             K::SaslExternal => format!("{:?}", conn.sasl_external_bind()),
-            K::Search => format!("{:?}", conn.search(&m, Scope::Subtree, "(a=b)", attrs())),
-            K::Stream | K::StreamEntriesOnly | K::StreamPaged | K::StreamEarlyResult => {
+            K::Search | K::SearchBadFilter => format!("{:?}", conn.search(&m, Scope::Subtree, filt(s.k), attrs())),
+            K::Stream | K::StreamEntriesOnly | K::StreamPaged | K::StreamEarlyResult | K::StreamBadFilter => {
                 let started = if s.k == K::Stream || s.k == K::StreamEarlyResult {
-                    conn.streaming_search(&m, Scope::OneLevel, "(a=b)", attrs())
+                    conn.streaming_search(&m, Scope::OneLevel, filt(s.k), attrs())
                 } else {
-                    conn.streaming_search_with(adapters(s.k), &m, Scope::OneLevel, "(a=b)", attrs())
+                    conn.streaming_search_with(adapters(s.k), &m, Scope::OneLevel, filt(s.k), attrs())
                 };
                 match started {
                     Err(e) => format!("start Err({:?})", e),
